@@ -71,7 +71,7 @@ def run(ctx):
     shapes = list(SHAPES)
     per_shape_tasks = 20000
     if thorough:
-        per_shape_tasks = 200000
+        per_shape_tasks = 100000
         for _ in range(34):
             shapes.append((rng.choice([1, 2, 3, 4, 5, 6, 8, 12, 16]), rng.choice([0, 1, 1]), rng.choice([0, 0, 1, 2, 3]), rng.choice([0, 100, 300, 600]),
                            rng.choice([0, 100, 300, 600]), rng.choice([0, 100, 500]), rng.choice([0, 50, 100, 300]), rng.choice([1, 4, 16, 64, 64]),
